@@ -295,12 +295,15 @@ def _legal(seq):
     return True
 
 
+OBSERVERS = True  # set per property in _raw: observers after every call only where they are the subject
+
+
 def seqc(T, cap, labels):
     seq = [ATOM[l] for l in labels]
     capn = "u" if cap is None else str(cap)
-    name = "q_%s_c%s_%s" % (tname(T), capn, "__".join(labels))
+    name = "q_%s_c%s_%s%s" % (tname(T), capn, "__".join(labels), "" if OBSERVERS else "_noobs")
     ops = ", ".join("(%s, %d, %d, %d)" % (k, f, w, d) for (_, k, f, w, d) in seq)
-    body = "seqc::<%s>(%s, &[%s]);" % (T, "None" if cap is None else "Some(%d)" % cap, ops)
+    body = "seqc::<%s>(%s, &[%s], %s);" % (T, "None" if cap is None else "Some(%d)" % cap, ops, "true" if OBSERVERS else "false")
     i = Inst(name.lower(), body, unwind=max(14, len(seq) + 3),
              note="call sequence [%s] on capacity %s (%s): every result and the abstraction of the real state compared with the reference model" % (
                  ", ".join(labels), capn, T))
@@ -351,15 +354,15 @@ CURATED = [
     ["stream_start", "stream_pollw1", "stream_drop", "try_send", "try_recv"],
     ["asend_start0", "stream_start", "asend_poll0w0", "stream_pollw0", "asend_start1", "stream_pollw0", "asend_poll1w1"],
     # 25.. : three waiters, cancellation from the head / middle of the waiting list
-    ["asend_start0", "asend_start1", "asend_start2", "asend_drop0", "try_recv", "try_recv", "asend_poll1w1", "asend_poll2w0"],
-    ["asend_start0", "asend_start1", "asend_start2", "asend_drop1", "drain", "asend_poll0w0", "asend_poll2w0"],
-    ["try_send", "asend_start0", "asend_start1", "asend_start2", "asend_drop0", "try_recv", "try_recv", "try_recv", "asend_poll2w0"],
-    ["arecv_start0", "arecv_start1", "arecv_start2", "arecv_drop0", "try_send", "try_send", "arecv_poll1w1", "arecv_poll2w0"],
-    ["arecv_start0", "arecv_start1", "arecv_start2", "arecv_drop1", "try_send", "send", "arecv_poll0w0", "arecv_poll2w0"],
+    ["asend_start0", "asend_start1", "asend_start2", "asend_drop0", "try_recv", "try_recv"],
+    ["asend_start0", "asend_start1", "asend_start2", "asend_drop1", "drain"],
+    ["try_send", "asend_start0", "asend_start1", "asend_start2", "asend_drop0", "drain"],
+    ["arecv_start0", "arecv_start1", "arecv_start2", "arecv_drop0", "try_send", "arecv_poll1w1"],
+    ["arecv_start0", "arecv_start1", "arecv_start2", "arecv_drop1", "try_send", "arecv_poll0w0"],
     # 30.. : a timed-out operation behind / in front of other waiters removes exactly itself
-    ["arecv_start0", "arecv_start1", "recv_timeout", "try_send", "arecv_poll0w0", "arecv_poll1w1", "try_send", "arecv_poll1w1"],
+    ["arecv_start0", "arecv_start1", "recv_timeout", "try_send", "arecv_poll0w0"],
     ["arecv_start0", "recv_timeout", "try_send", "arecv_poll0w0", "try_send"],
-    ["asend_start0", "asend_start1", "send_timeout", "try_recv", "try_recv", "asend_poll0w0", "asend_poll1w1", "try_recv"],
+    ["asend_start0", "asend_start1", "send_timeout", "try_recv", "try_recv", "try_recv"],
     ["asend_start0", "send_opt_timeout", "try_recv", "asend_poll0w0", "try_recv"],
     # 34.. : async receive from a full buffer hands the freed place to the oldest blocked sender
     ["try_send", "asend_start0", "arecv_start0", "asend_poll0w0", "try_recv", "try_recv"],
@@ -423,6 +426,7 @@ def poll_sites(types, full):
         compl = "TRY_RECV" if send_side else "TRY_SEND"
         kill = "CLOSE_R" if send_side else "CLOSE_S"
         combos = [("POLL_PENDING", compl, False), ("POLL_PENDING", compl, True), ("POLL_EXISTS", compl, True),
+                  ("REGISTER_WAKER", compl, True), ("REGISTER_WAKER", kill, True),
                   ("POLL_PENDING", kill, True), ("POLL_EXISTS", kill, True), ("POLL_PENDING", "NOP", True)]
         if full:
             combos += [("POLL_PENDING", "DRAIN" if send_side else "SEND", False), ("POLL_PENDING", kill, False),
@@ -512,11 +516,11 @@ def wake_windows(types, full):
 
 
 # sequences that need a buffer of 2 (refill position is only visible then)
-REFILL2 = [["try_send", "try_send", "asend_start0", rk, "try_recv", "try_recv", "asend_poll0w0"]
+REFILL2 = [["try_send", "try_send", "asend_start0", rk, "try_recv", "try_recv"]
            for rk in ("try_recv", "try_recv_rt", "recv", "recv_timeout")] + [
-    ["try_send", "try_send", "asend_start0", "arecv_start0", "try_recv", "try_recv", "asend_poll0w0"],
-    ["try_send", "try_send", "asend_start0", "stream_start", "stream_pollw0", "stream_pollw0", "asend_poll0w0"],
-    ["try_send", "try_send", "asend_start0", "asend_start1", "try_recv", "drain", "asend_poll0w0", "asend_poll1w1"],
+    ["try_send", "try_send", "asend_start0", "arecv_start0", "try_recv", "try_recv"],
+    ["try_send", "try_send", "asend_start0", "stream_start", "stream_pollw0", "stream_pollw0"],
+    ["try_send", "try_send", "asend_start0", "asend_start1", "try_recv", "drain"],
 ]
 
 
@@ -586,8 +590,10 @@ SEQT = DROPPY + ["u32", "Big"]  # sequences: the padded class is slow there (mea
 ALLT = ZST + PLAIN + DROPPY
 
 
-def instances(prop, tier):
-    full = tier == "thorough"
+def _raw(prop, full):
+    global OBSERVERS
+    # len / is_full / counts / is_closed ... after every call: C18 (reference equivalence), C03, C08, C10, C11, C12
+    OBSERVERS = prop in ("C18", "C03", "C08", "C10", "C11", "C12")
     B = lambda outers, peers, types, caps: blocked_matrix(outers, lambda o: peers, types, caps, full)
     L = []
     if prop == "C01":
@@ -662,7 +668,7 @@ def instances(prop, tier):
         D = drop_matrix(MIXED, [0], full)
         L += [i for i in D if "_st2_" in i.name]
         L += poll_splits(MIXED, full)
-        L += [i for i in poll_sites(MIXED, full) if "poll_exists" in i.name]
+        L += [i for i in poll_sites(MIXED, full) if "poll_exists" in i.name or "register_waker" in i.name]
         if not full:
             L = pick(L, 34)
     elif prop == "C08":
@@ -764,8 +770,11 @@ def instances(prop, tier):
         L += seqs([["asend_start0", "asend_drop0", "try_recv"], ["arecv_start0", "arecv_drop0", "try_send", "try_recv"],
                    ["asend_start0", "asend_start1", "asend_drop1", "drain", "asend_poll0w0"]], DROPPY, [0, 1])
         L += seqs(cur("termdrop", "three"), DROPPY, [0, 1])
+        # every droppable size class through "value delivered into the future, future dropped unobserved"
+        L += [future_drop(T, c, False, 3) for T in DROPPY for c in (0, 1)]
+        L += [future_drop(T, 0, False, 2, "ABW_ENTRY", 0, 0) for T in DROPPY]
         if not full:
-            L = pick(L, 38)
+            L = pick(L, 48)
     elif prop == "C16":
         L += [repoll_done("TagL", True), repoll_done("TagP", False)]
         L += [async_waiter(T, c, ss, p, rp) for (T, c, ss, p, rp) in [
@@ -804,11 +813,74 @@ def instances(prop, tier):
                    ["arecv_start0", "drain", "try_send", "arecv_poll0w0", "drain"]], DROPPY, [1, 2] if full else [2])
     else:
         raise KeyError(prop)
-    L = dedup(L)
-    if full and len(L) > THOROUGH_MAX:
-        L = pick(L, THOROUGH_MAX)
+    return dedup(L)
+
+
+def instances(prop, tier):
+    full = tier == "thorough"
+    L = _raw(prop, full)
+    if full:
+        if len(L) > THOROUGH_MAX:
+            keep = [i for i in L if is_must(prop, i.name)]
+            L = dedup(keep + pick([i for i in L if not is_must(prop, i.name)], THOROUGH_MAX - len(keep)))
+    else:
+        # quick tier: the corner cases that seeded defects need (MUST, taken from the full product) + an even
+        # spread of the rest.  Sized so that a check stays far below 15 minutes on a loaded 16-core machine.
+        allq = _raw(prop, True)
+        must = sorted([i for i in allq if is_must(prop, i.name)], key=lambda i: must_rank(prop, i.name))
+        # at most a few per pattern, so that every pattern is represented
+        chosen, per = [], {}
+        for i in must:
+            r = must_rank(prop, i.name)
+            if per.get(r, 0) < QUICK_PER_PATTERN:
+                chosen.append(i)
+                per[r] = per.get(r, 0) + 1
+        chosen = chosen[:QUICK_MUST_MAX]
+        names = set(i.name for i in chosen)
+        rest = [i for i in L if i.name not in names]
+        L = chosen + pick(rest, max(4, QUICK_N - len(chosen)))
     L.append(canary())
     return dedup(L)
+
+
+QUICK_PER_PATTERN = 3
+QUICK_N = 24
+QUICK_MUST_MAX = 16
+MUST = {
+    "C01": [r"_abw_sleep_.*_n1$", r"^[ab]_zd_", r"asend_start2__asend_drop0"],
+    "C02": [r"asend_start2__asend_drop|arecv_start2__arecv_drop", r"__recv_timeout__try_send__arecv_poll", r"_c2_try_send__try_send__asend_start0__(try_recv|recv)__",
+            r"asend_start1__send_timeout__try_recv"],
+    "C03": [r"^w_.*_rs_(recv|try_recv|recv_to|arecv)_(try_send|observe)$", r"^w_.*_ss_(send|try_send)_"],
+    "C04": [r"^u_ptr_", r"^s_(u32|big|pad)_recv_to_wt_entry_(park|wait_entry)"],
+    "C05": [r"^d_.*_sf_st2_.*_f1_", r"__(close_r|drop_r)__asend_drop0", r"^b_zd", r"^s_.*send_opt_to_.*_f1_"],
+    "C06": [r"^b_.*_c1_send.*_arecv$", r"^b_.*_send_.*_drop_r(_async)?$", r"__arecv_start0__asend_poll0w0", r"^b_.*_recv_.*_drop_s(_async)?$"],
+    "C07": [r"^d_(u32|big|pad)_c0_rf_st2_", r"_n1$", r"register_waker", r"poll_exists"],
+    "C08": [r"^q_(unit|za)_", r"^w_.*try_send$", r"send_timeout__try_recv"],
+    "C09": [r"drop_s__clone_r1__drop_r", r"drop_r__clone_s1__drop_s", r"_s0k\dp\d_arecv$", r"_s0k\dp\d_asend$"],
+    "C10": [r"close_[sr]__clone_[sr][13]"],
+    "C11": [r"drop_s__clone_r[13]|drop_r__clone_s[13]", r"drop_[sr]_async"],
+    "C12": [r"drop_s__clone_r[0-3]|drop_r__clone_s[0-3]", r"close_[sr]__clone_[sr]3", r"drop_[sr]_async"],
+    "C13": [r"recv_timeout__try_send__arecv_poll", r"asend_start1__send_timeout__try_recv", r"^s_.*_(send_opt_to|send_to|recv_to)_wt_entry_(park|wait_precas|timed_precancel)_f1", r"_nop$"],
+    "C14": [r"^n_rt_"],
+    "C15": [r"^d_tag[spl]_c0_rf_st3", r"^d_tagp_c0_rf_st2_abw_entry_f0", r"^d_.*_sf_st2_.*f1_n[01]$", r"_c0_.*__(close_r|drop_r|close_s)__a(send|recv)_drop[01]",
+            r"_c0_asend_start0__asend_start1__asend_start2__asend_drop0"],
+    "C16": [r"^ps_.*_sf_register_waker_try_recv", r"^ps_.*_rf_register_waker_try_send", r"^pp_.*_diffw_abw_sleep_f0_n1", r"^pp_.*_diffw_abw_(entry|spin)_f[01]_n0", r"^st_.*_sp[12]", r"^p_done"],
+    "C18": [r"_c2_try_send__try_send__asend_start0__try_recv__"],
+    "C19": [r"^n_drain_"],
+}
+
+
+def must_rank(prop, name):
+    import re
+    for k, p in enumerate(MUST.get(prop, [])):
+        if re.search(p, name):
+            return k
+    return 99
+
+
+def is_must(prop, name):
+    import re
+    return any(re.search(p, name) for p in MUST.get(prop, []))
 
 
 # thorough tier: at most this many solver queries per property (about an hour on 16 cores)
